@@ -43,8 +43,8 @@ fn live() -> isize {
 
 // ---------------------------------------------------------------- worker pool with a watchdog (C09: a call must return)
 // The cases of a file are handed out one by one to `threads` long-lived workers (so histories per thread stay as they are).
-// A monitor declares a case hung when it runs longer than VERIF_CASE_DEADLINE seconds (default 60, 10 after the first
-// hang): its record becomes `CASE ..` / `RESULT hang ..` / `END`, the stuck worker is abandoned (it cannot be killed) and
+// A monitor declares a case hung when it runs longer than VERIF_CASE_DEADLINE seconds (default 60) plus 1 s per 50 opcodes
+// of its budget: its record becomes `CASE ..` / `RESULT hang ..` / `END`, the stuck worker is abandoned (it cannot be killed) and
 // a fresh worker takes over the remaining cases.  After MAX_STUCK abandoned workers the remaining cases are skipped
 // (`RESULT skipped`), so a change that makes most calls diverge still ends the run with a verdict.
 fn deadline_secs() -> u64 {
@@ -88,7 +88,12 @@ fn run_pool(lines: Vec<String>, threads: usize, f: fn(&str) -> Vec<String>) -> V
         ids += 1;
     }
     let mut stuck = 0usize;
-    let mut limit = deadline_secs();
+    // a case may take its time in proportion to the opcode budget it asks for (`max=`): 1 s per 50 opcodes on top of the base
+    let budget: Vec<u64> = lines
+        .iter()
+        .map(|l| kv(l).get("max").and_then(|m| m.parse::<u64>().ok()).unwrap_or(0) / 50)
+        .collect();
+    let base = deadline_secs();
     loop {
         std::thread::sleep(std::time::Duration::from_millis(20));
         if results.lock().unwrap().iter().all(|r| r.is_some()) {
@@ -98,18 +103,17 @@ fn run_pool(lines: Vec<String>, threads: usize, f: fn(&str) -> Vec<String>) -> V
             .lock()
             .unwrap()
             .iter()
-            .filter(|(_, (_, t))| t.elapsed().as_secs() >= limit)
+            .filter(|(_, (i, t))| t.elapsed().as_secs() >= base + budget[*i])
             .map(|(id, (i, _))| (*id, *i))
             .collect();
         for (id, i) in hung {
             running.lock().unwrap().remove(&id);
             results.lock().unwrap()[i] = Some(vec![
                 format!("CASE {}", lines[i]),
-                format!("RESULT hang the call did not return within {} s", limit),
+                format!("RESULT hang the call did not return within {} s", base + budget[i]),
                 "END".to_string(),
             ]);
             stuck += 1;
-            limit = limit.min(10);
             if stuck < MAX_STUCK {
                 spawn(ids);
                 ids += 1;
@@ -152,7 +156,8 @@ fn print_all(results: Vec<Vec<String>>) {
 // single calls outside the pool (child processes of `isolated`, deep runs): end the process when the call does not return
 fn watched<T>(line: &str, f: impl FnOnce() -> T) -> T {
     let done = std::sync::Arc::new(std::sync::atomic::AtomicBool::new(false));
-    let (d2, l2, limit) = (done.clone(), line.to_string(), deadline_secs());
+    let budget = kv(line).get("max").and_then(|m| m.parse::<u64>().ok()).unwrap_or(0) / 50;
+    let (d2, l2, limit) = (done.clone(), line.to_string(), deadline_secs() + budget);
     std::thread::spawn(move || {
         let t = std::time::Instant::now();
         while !d2.load(std::sync::atomic::Ordering::Relaxed) {
